@@ -713,6 +713,17 @@ func runSnapDone(c *Ctx, r *RuleRun) {
 	if n == 0 {
 		r.Viol("oracle", "readMark.Done", "", "the read mark of a transaction is never finished: version garbage collection and conflict-record cleanup never advance")
 	}
+	// the read mark is released only when the transaction ends: the function that finishes a transaction's read mark
+	// is called from Discard and from the commit path (Commit / newCommitTs) only
+	for _, site := range p.CallersOf(a.doneRead) {
+		g := site.Parent()
+		if g == nil {
+			continue
+		}
+		okCaller := g == a.discard || g == a.newCommitTs || g == a.commit
+		r.Check(okCaller, p.FnName(g), "read mark released only at the end of the transaction", p.Pos(instrPos(site)), "called when the transaction is discarded or commits",
+			"the read mark of a transaction is released while the transaction can still read (not from Discard or the commit path): version garbage collection no longer keeps the versions its snapshot needs, and conflict records it depends on are cleaned up")
+	}
 }
 
 func runSerSection(c *Ctx, r *RuleRun) {
